@@ -568,6 +568,7 @@ class TeX(object):
                 nesting -= 1
             elif not(nesting) and name == 'else':
                 cases.append([])
+                elsefound = True
                 continue
             elif not(nesting) and name == 'or':
                 cases.append([])
@@ -578,11 +579,18 @@ class TeX(object):
         if not correctly_terminated:
             log.warning(r'\end occurred when \if was incomplete')
 
-        # else case for ifs without elses
-        cases.append([])
+        # The \else case is used when no numbered case matches
+        # (false condition, or \ifcase selector out of range);
+        # ifs without elses have an empty one.
+        elsecase = []
+        if elsefound:
+            elsecase = cases.pop()
 
         # Push if-selected tokens back into tokenizer
-        self.pushTokens(cases[which])
+        if 0 <= which < len(cases):
+            self.pushTokens(cases[which])
+        else:
+            self.pushTokens(elsecase)
 
     def readArgument(self, *args, **kwargs):
         """
